@@ -772,7 +772,10 @@ fn oracle(parser: &VHDLParser, text: &str) -> String {
             ));
         } else {
             for (j, t) in utoks.iter().enumerate() {
-                if *t != toks[at + j] {
+                // Token: PartialEq is not reflexive for a real literal whose value is NaN (`0.0e+309` = 0 * inf):
+                // fall back to kind, position and the Debug rendering of the value
+                let o = &toks[at + j];
+                if *t != *o && !(t.kind == o.kind && t.pos == o.pos && format!("{:?}", t.value) == format!("{:?}", o.value)) {
                     viol.push(format!(
                         "unit {}: token {} ({} at {}) is not token {} of the file ({} at {})",
                         k,
@@ -1639,6 +1642,125 @@ fn gen(seed: u64, tier: &str, out_path: &str) {
                 }
             }
             emit("astral", &format!("{}{}", if r.chance(1, 2) { *r.pick(PREFIXES) } else { "" }, line));
+        }
+    }
+    // 13. comments that look like tool directives / pragmas (`-- vhdl_ls off|on` start and end an ignored
+    //     region; every comment inside a region is tested for `on`): every byte-level mutation of them — a
+    //     multi-byte character, tab or NBSP inserted or substituted at every position, truncation at every
+    //     position, case changes — in line and block comments, outside and inside ignored regions, nested
+    //     off/off/on/on, at end of file without newline, and backtick tool directives
+    {
+        let bases = [
+            "vhdl_ls off", "vhdl_ls on", " vhdl_ls off", "vhdl_ls off: PSL is not supported", "vhdl_ls on (end of PSL)",
+            "vhdl_ls  on", "vhdl_ls", "VHDL_LS OFF", "vhdl_ls offline", "pragma translate_off", "synthesis translate_on",
+            "vhdl_ls\toff", "vhdl_ls\u{a0}on",
+        ];
+        let inserts = ["\u{e9}", "\u{e4}", "\u{f1}", "\u{20ac}", "\u{1F44D}", "\u{a0}", "\t", "\u{2192}n", " "];
+        let mut k = 0usize;
+        let mut forms = |c: &str, k: usize, emit: &mut dyn FnMut(&str, &str)| {
+            let t = match k % 8 {
+                0 => format!("entity e is -- {}\nend;", c),
+                1 => format!("entity e is /* {} */ end;", c),
+                2 => format!("entity e is end; -- {}", c),
+                3 => format!("-- vhdl_ls off\nx ( -- {}\ny /* {} */ z\n-- vhdl_ls on\nentity e is end;", c, c),
+                4 => format!("-- {}\ngarbage ( ;\n-- vhdl_ls on\nentity e is end; --{}", c, c),
+                5 => format!("--{}\n--{}\nx\n-- vhdl_ls on\ny\n--vhdl_ls on\nentity e is end; /*{}", c, c, c),
+                6 => format!("entity e is /* vhdl_ls off */ a /*{}*/ b /* vhdl_ls on */ end; /* {}", c, c),
+                _ => format!("entity e is end;\n`{}\nentity f is end; `{}", c, c),
+            };
+            emit("directive", &t);
+        };
+        for b in bases.iter() {
+            let cs: Vec<char> = b.chars().collect();
+            forms(b, k, &mut emit);
+            k += 1;
+            for i in 0..=cs.len() {
+                let head: String = cs[..i].iter().collect();
+                let tail: String = cs[i..].iter().collect();
+                // truncation
+                forms(&head, k, &mut emit);
+                k += 1;
+                for ins in inserts.iter() {
+                    // insertion, substitution, truncation + character
+                    forms(&format!("{}{}{}", head, ins, tail), k, &mut emit);
+                    k += 1;
+                    if i < cs.len() {
+                        let rest: String = cs[i + 1..].iter().collect();
+                        forms(&format!("{}{}{}", head, ins, rest), k, &mut emit);
+                        k += 1;
+                    }
+                    if (i + k) % 3 == 0 {
+                        forms(&format!("{}{}", head, ins), k, &mut emit);
+                        k += 1;
+                    }
+                }
+                if i < cs.len() && cs[i].is_alphabetic() {
+                    let mut c2 = cs.clone();
+                    c2[i] = if c2[i].is_uppercase() { c2[i].to_ascii_lowercase() } else { c2[i].to_ascii_uppercase() };
+                    forms(&c2.iter().collect::<String>(), k, &mut emit);
+                    k += 1;
+                }
+            }
+        }
+    }
+    // 14. numeric boundary literals: every numeric field the tokenizer / parser converts (integer value u64,
+    //     exponent i32, base 2..16, bit string length, based digits, real mantissa, physical values, range
+    //     bounds) at MIN-1 .. MAX+1 of i8/i16/i32/i64/u8/u16/u32/u64, plain, with underscores, with leading zeros
+    {
+        let mut mags: Vec<u128> = vec![0, 1, 2, 3, 9, 10, 15, 16, 17, 36, 37];
+        for b in [8u32, 16, 32, 64] {
+            let h = 1u128 << (b - 1);
+            let f = 1u128 << b;
+            for v in [h - 2, h - 1, h, h + 1, h + 2, f - 2, f - 1, f, f + 1] {
+                mags.push(v);
+            }
+        }
+        mags.extend([10u128.pow(19), 10u128.pow(20), 1u128 << 100, 308, 309, 1023, 1024, 1025, 4932]);
+        mags.sort();
+        mags.dedup();
+        let underscored = |d: &str| {
+            let cs: Vec<char> = d.chars().collect();
+            let mut o = String::new();
+            for (i, c) in cs.iter().enumerate() {
+                if i > 0 && (cs.len() - i) % 3 == 0 {
+                    o.push('_');
+                }
+                o.push(*c);
+            }
+            o
+        };
+        let mut k = 0usize;
+        for m in mags.iter() {
+            let dec = m.to_string();
+            let variants = [dec.clone(), underscored(&dec), format!("000{}", dec), format!("0_{}", underscored(&dec))];
+            let hexs = format!("{:X}", m);
+            let bins = format!("{:b}", m);
+            for v in variants.iter() {
+                let lits = [
+                    format!("{}", v), format!("- {}", v), format!("1e{}", v), format!("1e+{}", v), format!("1e-{}", v), format!("1E-{}", v),
+                    format!("1.0e{}", v), format!("1.0e-{}", v), format!("0e-{}", v), format!("0.0e+{}", v),
+                    format!("16#F.F#E-{}", v), format!("16#F#e{}", v), format!("2#1#e{}", v), format!("2#1.1#e-{}", v), format!("16:F:e-{}", v),
+                    format!("{}#1#", v), format!("{}#0.1#", v), format!("{}:1:", v),
+                    format!("{}x\"F\"", v), format!("{}b\"1\"", v), format!("{}d\"1\"", v), format!("{}sx\"F\"", v), format!("{}ub\"\"", v),
+                    format!("16#{}#", hexs), format!("2#{}#", bins), format!("16#{}.{}#e1", hexs, hexs), format!("d\"{}\"", v),
+                    format!("{}d\"{}\"", (bins.len()), v),
+                    format!("{}.0", v), format!("0.{}", v), format!("{}.{}e{}", v, v, v), format!("{}.{}", v, v),
+                    format!("{} ns", v), format!("{}.5 fs", v), format!("- {} ps", v),
+                ];
+                for l in lits.iter() {
+                    let t = match k % 7 {
+                        0 => format!("package p is constant c : t := {} ; end ;", l),
+                        1 => format!("package p is type t is range - {} to {} ; subtype s is t range {} downto 0 ; end ;", l, l, l),
+                        2 => format!("package p is signal s : bit_vector ( {} downto - {} ) := ( {} => '1' , others => '0' ) ; end ;", l, l, l),
+                        3 => format!("package body p is procedure q is begin wait for {} ; for i in {} to {} loop x := a ( {} ) ** {} ; end loop ; end ; end ;", l, l, l, l, l),
+                        4 => format!("{}", l),
+                        5 => format!("package p is constant c : t := {}", l),
+                        _ => format!("package p is type t is range 0 to 1 units a ; b = {} a ; end units ; constant d : time := {} + {} ; end ;", l, l, l),
+                    };
+                    emit("numeric", &t);
+                    k += 1;
+                }
+            }
         }
     }
     // 10. nesting depth (regression of F41: limit 256 since 674ec0b), long iterative chains, nested
